@@ -124,6 +124,7 @@ impl ScriptedReader {
 
 impl Read for ScriptedReader {
     fn read(&mut self, buf: &mut [u8]) -> io::Result<usize> {
+        let _pause = crate::alloc::Pause::new();
         self.read_calls += 1;
         if self.read_calls > CALL_LIMIT {
             std::panic::panic_any(HangMarker);
@@ -150,6 +151,7 @@ impl Read for ScriptedReader {
 
 impl Seek for ScriptedReader {
     fn seek(&mut self, to: SeekFrom) -> io::Result<u64> {
+        let _pause = crate::alloc::Pause::new();
         let idx = self.seek_count;
         self.seek_count += 1;
         if let Some((_, k)) = self.seek_fails.iter().find(|(i, _)| *i == idx) {
@@ -217,10 +219,14 @@ impl DynPolicy {
     pub fn new(desc: PolDesc, log: Log) -> DynPolicy {
         DynPolicy { desc, calls: 0, log }
     }
+    pub fn desc(&self) -> &PolDesc {
+        &self.desc
+    }
 }
 
 impl BufPolicy for DynPolicy {
     fn grow_to(&mut self, cur: usize) -> Option<usize> {
+        let _pause = crate::alloc::Pause::new();
         self.calls += 1;
         if self.log.borrow().len() > CALL_LIMIT {
             std::panic::panic_any(HangMarker);
@@ -277,6 +283,10 @@ impl std::io::Write for ShortWriter {
     fn write(&mut self, buf: &[u8]) -> std::io::Result<usize> {
         let n = buf.len().min(self.max);
         self.out.extend_from_slice(&buf[..n]);
+        if self.out.len() > (1 << 20) {
+            // the cases write a few hundred bytes: a writing function that keeps calling `write` is looping
+            std::panic::panic_any(HangMarker);
+        }
         Ok(n)
     }
     fn flush(&mut self) -> std::io::Result<()> {
